@@ -152,7 +152,7 @@ def run_case(rec, case):
     rng = gen.mkrng('c19', case['seed'], case['i'])
     srv = rng.choice(['T', 'A'])
     if srv == 'A' and case.get('aio'):
-        srv = case['aio']    # asyncio server behind the aiohttp adapter
+        srv = case['aio']    # asyncio server behind the aiohttp / tornado adapter
         rec.count('histories_on_aiohttp_adapter')
     ae = rng.choice(AE)
     comp = rng.random() < 0.8
@@ -254,7 +254,7 @@ def run_sequence(rec, case):
     rng = gen.mkrng('c19seq', case['seed'], case['i'])
     srv = rng.choice(['T', 'A'])
     if srv == 'A' and case.get('aio'):
-        srv = case['aio']    # asyncio server behind the aiohttp adapter
+        srv = case['aio']    # asyncio server behind the aiohttp / tornado adapter
         rec.count('histories_on_aiohttp_adapter')
     comp = rng.random() < 0.85
     thr = rng.choice([0, 0, 2, 60, 200, 1024])
@@ -365,6 +365,8 @@ def run_shard(spec):
              for k in range(spec['n'])]
     for c in cases[::2]:
         c['aio'] = 'H'
+    for c in cases[2::4]:
+        c['aio'] = 'N'     # ... and behind the tornado adapter
     # one in six cases is a sequence of responses from one server instance
     cases += [{'seed': spec['seed'], 'i': spec['shard'] * 1000000 + k,
                'seq': True} for k in range(spec['n'] // 6)]
